@@ -169,7 +169,7 @@ func c20Generated(c *Ctx, boost int) {
 			}
 		}
 		c.Disagree("C20/lock-facts/"+what, "the lock facts regenerated from the source no longer satisfy the protocol's hypotheses: "+c20Trunc(bad),
-			"theorems all_sites_guarded / lock_order_acyclic / tempfile_excl / goroutines_joined / immutable_written_only_fresh", map[string]any{"note": "no concrete schedule: the hypothesis of the protocol proof failed on the current source", "bad": bad})
+			"theorems all_sites_guarded / lock_order_acyclic / no_lock_leak / no_split_rmw / rename_targets_serialised / globals_written_under_barrier / tempfile_excl / goroutines_joined / immutable_written_only_fresh", map[string]any{"note": "no concrete schedule: the hypothesis of the protocol proof failed on the current source", "bad": bad})
 	}
 	if s := c.Drv.Ask("facts.summary"); s != "drv-dead" {
 		c.Res.Notes = append(c.Res.Notes, "lock facts: "+s)
